@@ -54,11 +54,11 @@ end
 
 /-- operations that touch the source but neither the limit nor the capture frames -/
 def Op.isAccess : Op → Prop
-  | .getLimit | .setLimit _ | .capBegin | .capEnd => False
+  | .getLimit | .setLimit _ | .capBegin | .capEnd | .getPos => False
   | _ => True
 /-- operations a closure working on a primitive's content issues: no limit changes, no capture -/
 def Op.isWindow : Op → Prop
-  | .setLimit _ | .capBegin | .capEnd => False
+  | .setLimit _ | .capBegin | .capEnd | .getPos => False
   | _ => True
 
 theorem Op.isAccess_isWindow (o : Op) (h : o.isAccess) : o.isWindow := by cases o <;> simp_all [Op.isAccess, Op.isWindow]
